@@ -35,7 +35,7 @@ var c11WorkerWeights = core.OpWeights{
 	core.OpInsert: 20, core.OpInsertNew: 20, core.OpDelete: 20, core.OpUpdate: 6, core.OpGet: 8, core.OpIter: 4,
 	core.OpPersist: 8, core.OpReload: 5, core.OpClone: 2,
 	core.OpIterStop: 3, // interpreted by the workers as a cursor walk (Cursor, Min, Forward ...) compared with the model
-	core.OpSize: 6, // interpreted by the workers as "diff the tree against the version it started from" (DiffIter + DiffLinks)
+	core.OpSize:     6, // interpreted by the workers as "diff the tree against the version it started from" (DiffIter + DiffLinks)
 }
 
 func genC11(t *rapid.T, tier string) C11Case {
@@ -212,7 +212,11 @@ func runC11(c C11Case, o *run.Obs) error {
 			st.last = nil // unsaved: nothing to reload before the first persist
 		case "fresh":
 			var mm *mast.Mast
-			if err := core.Safely("LoadMast", func() error { var e error; mm, e = w.NewRoot().LoadMast(core.Ctx, w.RemoteConfig(st.store, st.cache)); return e }); err != nil {
+			if err := core.Safely("LoadMast", func() error {
+				var e error
+				mm, e = w.NewRoot().LoadMast(core.Ctx, w.RemoteConfig(st.store, st.cache))
+				return e
+			}); err != nil {
 				o.Label("aborted:base-failure")
 				return nil
 			}
